@@ -437,6 +437,22 @@ def run(F, rep, tier):
             rep.ok('R5.5', 'Env::insert stores the declared type', 'every successful path moves `ty` into the entry')
         else:
             rep.viol('R5.5', 'core::Env::insert|type-not-stored', 'Env::insert has a successful path on which the declared type is not stored (a redeclaration that keeps the old entry): after `x: int = 1; x: str = \'a\'` the variable still has type int', insb.loc(0))
+    # only a call boundary absorbs `return`: arms matching NErr::Return exist in Closure::run / Func::run (the call boundaries), evaluate
+    # (Expr::Return builds it, lambdas), and NErr's own plumbing - a builtin such as eval must let it travel to the enclosing function
+    from .census import Census as _C5
+    c5 = _C5(F)
+    RET_OK = re.compile(r'^(<core::NErr as .*|core::NErr::\w+|core::err_add_name|eval::evaluate|eval::<impl core::(Closure|Func)>::run|eval::(Closure|Func)::run)$')
+    nret = 0
+    for fn_, ms_ in F.matches.items():
+        for m_ in ms_:
+            if m_['kind'] == 'Normal' and any('NErr::Return' in pat_str(a['pat']) for a in m_['arms']):
+                nret += 1
+                fk_ = c5.fn_key(fn_)
+                if RET_OK.search(fk_):
+                    rep.ok('R5.4', '%s handles NErr::Return' % fk_, 'call boundary / error plumbing')
+                else:
+                    rep.viol('R5.4', '%s|absorbs-return' % fk_, '%s has a match arm on NErr::Return: a `return` executed inside it (e.g. in code run by eval) is absorbed there instead of leaving the enclosing function' % fk_, F.loc(m_['sp']))
+    rep.floor('R5.4', 'matches on NErr::Return', nret, 4)
     # ---------------- R5.10
     rep.rule('R5.10', '`for .. yield e into first` stops at the first element: CataFirst::give ends the loop by returning Err(Break(0, Some(value))) '
              '(the loop sites absorb Break(0), R5.4), so later iterations - their side effects, errors and non-termination - do not happen')
